@@ -50,8 +50,8 @@ func TestPartitionRandom(t *testing.T) {
 	defer w.close()
 	keys := []string{"a", "b", "c", "z", "A", "B", "Z"}
 	// requests also come without a key, or with a key of another type than string
-	reqKeys := append(append([]string{}, keys...), "<none>", "<int>")
-	names := []string{"a", "b", "c"}
+	reqKeys := append(append([]string{}, keys...), "<none>", "<int>", "")
+	names := []string{"a", "b", "c", ""} // the empty name: the partition of requests that carry no key
 	for tr := 0; tr < n; tr++ {
 		r := newRng(seed(), uint64(tr))
 		cfg := partCfg{Kind: []string{"lookup", "predicate"}[tr%2], Den: 16, Limit: r.between(1, 64),
